@@ -39,12 +39,14 @@ func (p *faultyPublisher) Close() error { return nil }
 // c01Pipeline: one Router stage t0 -> t1 over one real GoChannel; one message; at most one fault among
 // {handler error, handler panic, publisher error, publisher panic} on the first call. Whatever the
 // schedule, the message reaches the final topic and what arrives derives from what was published.
-func c01Pipeline(cfg Config) {
+func c01Pipeline(cfg Config) { c01PipelineF(cfg, 2, 2) }
+
+func c01PipelineF(cfg Config, maxH, maxP int) {
 	g := NewGoChannel(cfg, watermill.NopLogger{})
 	r, err := message.NewRouter(message.RouterConfig{}, watermill.NopLogger{})
 	vrt.Assert(err == nil, "router")
-	hFault := vrt.Int("handler.fault", 0, 2) // 0 none, 1 error on first call, 2 panic on first call
-	pFault := vrt.Int("publisher.fault", 0, 2)
+	hFault := vrt.Int("handler.fault", 0, maxH) // 0 none, 1 error on first call, 2 panic on first call
+	pFault := vrt.Int("publisher.fault", 0, maxP)
 	vrt.Assume(hFault == 0 || pFault == 0) // at most one fault
 	hcalls := 0
 	pub := &faultyPublisher{inner: g, fault: pFault}
@@ -79,3 +81,7 @@ func c01Pipeline(cfg Config) {
 }
 
 func HarnessC01Stage1() { c01Pipeline(Config{}) }
+
+func HarnessC01NoFault()      { c01PipelineF(Config{}, 0, 0) }
+func HarnessC01HandlerFault() { c01PipelineF(Config{}, 2, 0) }
+func HarnessC01PubFault()     { c01PipelineF(Config{}, 0, 2) }
